@@ -160,7 +160,7 @@ Definition header (T : tables) (w : word) : bool :=
   | [] => false
   | e :: p_rev =>
     if N.eqb e DOT || N.eqb e 58 || N.eqb e 41 then
-      if is_list_marker T (rev p_rev) && negb (N.eqb e 41) then true
+      if is_list_marker T (map (to_lower T) (rev p_rev)) && negb (N.eqb e 41) then true   (* case-insensitive since the "fix:" for Normalize *)
       else forallb (fun r => is_digit T r || N.eqb r DOT) p_rev
     else false
   end.
